@@ -737,11 +737,31 @@ def run(tier, seed, replay=None):
     except vf.Broken as e:
         r.is_broken("harness-build", e)
         return r.finish()
-    try:
-        results, oracle, lines = both("c07", cases, bins)
-    except vf.Broken as e:
-        r.is_broken("correspondence-run", e)
-        return r.finish()
+    # batches under a wall-clock budget: on a loaded machine fewer generated cases are run (never fewer than the
+    # corpus and one generated batch); evidence records how many were evaluated
+    import time, subprocess
+    budget = float(os.environ.get("VERIF_C07_WALL", "150" if tier == "quick" else "1100"))
+    bsz = 12 if tier == "quick" else 40
+    ncorp = len(vf.load_corpus(PROP)) if not replay else len(cases)
+    batches = [cases[:ncorp]] + [cases[i:i + bsz] for i in range(ncorp, len(cases), bsz)]
+    batches = [b for b in batches if b]
+    results, oracle, lines, done = [], [], [], []
+    t_start = time.time()
+    for bi, batch in enumerate(batches):
+        if bi >= 2 and time.time() - t_start > budget:
+            break
+        try:
+            res_b, orc_b, lines_b = both("c07", batch, bins)
+        except vf.Broken as e:
+            r.is_broken("correspondence-run", e)
+            return r.finish()
+        except subprocess.TimeoutExpired as e:
+            r.is_broken("correspondence-run", f"timeout: {str(e)[:200]}")
+            return r.finish()
+        results += res_b; oracle += orc_b; lines += lines_b; done += batch
+    r.cov["cases_generated"] = len(cases)
+    r.cov["cases_evaluated_within_wall_budget"] = len(done)
+    cases = done
     nscen = ndiff = nsweep = ntriples = nforks = nops = 0
     kinds = {}
     probes = {}
